@@ -921,7 +921,7 @@ def signature(case):
     fam = case["family"]
     cause = structural_cause(case)
     if cause:
-        return {"op": fam, "cause": cause}
+        return {"cause": cause}
     sig = {"op": case["op"]}
     if fam in ("binary", "comparison"):
         sig.update(left=kind_of(case["left"]), right=kind_of(case["right"]), placement=case["placement"])
